@@ -533,6 +533,9 @@ func c16(x *mon.Ctx) {
 			}
 			kept[i] = a.(*pb.QuoteV4)
 			snap[i] = proto.Clone(kept[i]).(*pb.QuoteV4)
+			for k := range in { // the caller recycles its input buffer: the message does not live in it
+				in[k] = 0xFF
+			}
 			for j := 0; j <= i; j++ {
 				if snap[j] != nil && !proto.Equal(kept[j], snap[j]) {
 					if bad < 3 {
